@@ -35,4 +35,10 @@ theorem src :
     Gen.Secp256k1.src_btccurve_init = Expect.Secp256k1_src_btccurve_init :=
   ⟨rfl, rfl, rfl, rfl, rfl, rfl, rfl, rfl, rfl, rfl⟩
 
+/-- everything else the package declares (imports, constants, types, variables, build constraints and the functions not
+pinned one by one) is unchanged too: no declaration of the modelled packages can change without a tie theorem failing. -/
+theorem rest :
+    Gen.Secp256k1.rest_btccurve = Expect.Secp256k1_rest_btccurve :=
+  rfl
+
 end Iota.Tie.C17
